@@ -34,6 +34,8 @@ func VH_C14_sweeper() {
 	vhDo(s, "SETCHAN", "watch", "WITHIN", "k", "FENCE", "BOUNDS", "-10", "-10", "10", "10")
 	sub := newSubtarget()
 	s.pubsub.register(pubsubChannel, "watch", sub)
+	// and a live fence connection: what the sweeper hands to it is evaluated later, by another goroutine
+	s.lives[&liveBuffer{key: "k"}] = true
 	d0, _ := vhDeadline(s, "k", "a")
 	switch vchoose(8) {
 	case 1:
@@ -63,6 +65,7 @@ func VH_C14_sweeper() {
 	nowNS := now.UnixNano()
 	s.aofbuf = nil
 	sub.msgs = nil
+	s.lstack = nil
 	var wasSpatial [3]bool
 	for i, id := range ids {
 		if col, _ := s.cols.Get("k"); col != nil && col.Get(id) != nil {
@@ -89,6 +92,14 @@ func VH_C14_sweeper() {
 		if wasSpatial[i] {
 			vassert("C14.expiry_is_a_del_notification", seen == vhB2I(due))
 		}
+		// each expiry is queued for the live fences as its own record of that object
+		queued := 0
+		for _, d := range s.lstack {
+			if d.command == "del" && d.obj != nil && d.obj.ID() == id {
+				queued++
+			}
+		}
+		vassert("C14.expiry_is_queued_for_live_fences_once_per_object", queued == vhB2I(due))
 	}
 	vobs("sweep", delta, len(log))
 }
